@@ -58,7 +58,7 @@ fn items_json(c: &Conc, items: &[Shape]) -> Value {
 }
 
 fn res_json(c: &Conc, items: &[Shape], err: Option<Value>, none_past_end: Option<bool>) -> Value {
-    let mut v = json!({"items": items_json(c, items), "err": "", "code": 0});
+    let mut v = json!({"items": items_json(c, items), "openErr": "", "err": "", "code": 0});
     if let Some(e) = err {
         v["err"] = e["err"].clone();
         v["code"] = e["code"].clone();
@@ -138,13 +138,13 @@ pub fn read_reader<T: std::io::Read + std::io::Seek>(
     });
     match r {
         Ok(v) => v,
-        Err(p) => json!({"items": [], "err": "panic", "code": 0, "msg": p, "nonePastEnd": true}),
+        Err(p) => json!({"items": [], "openErr": "", "err": "panic", "code": 0, "msg": p, "nonePastEnd": true}),
     }
 }
 
 pub fn open_err(e: &Error) -> Value {
     let j = err_json(e);
-    json!({"items": [], "err": format!("open_{}", j["err"].as_str().unwrap()), "code": j["code"], "nonePastEnd": true})
+    json!({"items": [], "openErr": j["err"], "err": "", "code": j["code"], "nonePastEnd": true})
 }
 
 pub fn read_cursor_route(c: &Conc, shp: &[u8], shx: Option<&[u8]>, t: i32, generic: bool, random: bool, n: usize) -> Value {
@@ -155,7 +155,7 @@ pub fn read_cursor_route(c: &Conc, shp: &[u8], shx: Option<&[u8]>, t: i32, gener
     match opened {
         Ok(Ok(r)) => read_reader(c, r, t, generic, random, n),
         Ok(Err(e)) => open_err(&e),
-        Err(p) => json!({"items": [], "err": "panic", "code": 0, "msg": p, "nonePastEnd": true}),
+        Err(p) => json!({"items": [], "openErr": "", "err": "panic", "code": 0, "msg": p, "nonePastEnd": true}),
     }
 }
 
@@ -171,13 +171,13 @@ pub fn read_path_route(c: &Conc, path: &Path, t: i32, generic: bool, random: boo
         return match r {
             Ok(Ok(items)) => res_json(c, &items, None, None),
             Ok(Err(e)) => res_json(c, &[], Some(err_json(&e)), None),
-            Err(p) => json!({"items": [], "err": "panic", "code": 0, "msg": p, "nonePastEnd": true}),
+            Err(p) => json!({"items": [], "openErr": "", "err": "panic", "code": 0, "msg": p, "nonePastEnd": true}),
         };
     }
     match guarded(|| ShapeReader::from_path(path)) {
         Ok(Ok(r)) => read_reader(c, r, t, generic, random, n),
         Ok(Err(e)) => open_err(&e),
-        Err(p) => json!({"items": [], "err": "panic", "code": 0, "msg": p, "nonePastEnd": true}),
+        Err(p) => json!({"items": [], "openErr": "", "err": "panic", "code": 0, "msg": p, "nonePastEnd": true}),
     }
 }
 
